@@ -97,20 +97,35 @@ def wEnv : Env :=
 def wb1 : Block := ⟨1, 0, 1⟩
 def wb2 : Block := ⟨1, 1, 2⟩
 
-/-- what validator 5 sees in the scripted case `relabelled-commit` (harness/cmd/dbft/script.go), in order -/
-def wEvents : List (Event × Nat) :=
+/-- what validator 5 sees in the scripted case `relabelled-commit` (harness/cmd/dbft/script.go), in order;
+`lbl` is the view label under which validator 6's view-0 Commit comes out of validator 0's RecoveryMessage:
+0 with recovery_message.go GetCommits as fixed in ec63204 (every Commit keeps its own view), 1 = the recovery
+message's view with the old rule -/
+def wEventsWith (lbl : Nat) : List (Event × Nat) :=
   [(.start, 0), (.recv (.prepReq ⟨1, 1, 0⟩ 1), 0), (.recv (.prepResp ⟨6, 1, 0⟩ 1), 0), (.tick, 1)] ++
   ((List.range 5).map fun j => (Event.recv (.recReq ⟨j, 1, 0⟩), 1)) ++ [(.tick, 5)] ++
   ((List.range 5).map fun j => (Event.recv (.cv ⟨j, 1, 0⟩ 0), 5)) ++
   ([1, 2, 3, 4].map fun j => (Event.recv (.prepResp ⟨j, 1, 1⟩ 2), 5)) ++
   [(.recv (.commit ⟨0, 1, 1⟩ wb2), 5), (.tick, 12),
    (.recv (.recMsg ⟨0, 1, 1⟩ { cvs := [(0, 0), (1, 0), (2, 0), (3, 0), (4, 0)], req := some 2, preps := [0, 1, 2, 3, 4],
-                               commits := [(1, 0, wb2), (0, 6, wb1)] }), 12),
+                               commits := [(1, 0, wb2), (lbl, 6, wb1)] }), 12),
    (.recv (.prepReq ⟨0, 1, 1⟩ 2), 12), (.recv (.commit ⟨2, 1, 1⟩ wb2), 12), (.recv (.commit ⟨3, 1, 1⟩ wb2), 12)]
 
+def wEvents : List (Event × Nat) := wEventsWith 0
+
 set_option maxRecDepth 100000 in
-theorem relabelled_commit_in_witness :
-    (runEvents wEnv 5 (initNode wEnv 5) wEvents).2 =
+/-- regression (fixed defect `relabelled-commit-witness`, ec63204): with every relayed Commit keeping its own
+view, validator 6's view-0 signature is held as a Commit of another view and does not count: after the same
+events validator 5 holds four Commits of view 1 (M = 5) and hands nothing to its ledger … -/
+theorem relabelled_commit_not_counted :
+    (runEvents wEnv 5 (initNode wEnv 5) wEvents).2 = [] ∧
+    (runEvents wEnv 5 (initNode wEnv 5) wEvents).1.blockProcessed = false := by decide
+
+set_option maxRecDepth 100000 in
+/-- … whereas under the OLD rule (the Commit re-labelled with the recovery message's view 1) the same events
+made it hand its ledger block (1, view 1, p2) with validator 6's signature of the view-0 block in the witness -/
+theorem relabelled_commit_in_witness_old_rule :
+    (runEvents wEnv 5 (initNode wEnv 5) (wEventsWith 1)).2 =
       [.block wb2 [(0, true), (2, true), (3, true), (5, true), (6, false)]] := by decide
 
 end NeoModel.Dbft.Mach
